@@ -161,6 +161,10 @@ def hist_ops(version):
 
 
 def run(ctx):
+    from .. import pipeline
+
+    # wiring: the run's stored columns are this stage applied to the run's stored columns (see nssmc/pipeline.py)
+    pipeline.run_in(ctx, ['taus'], ('A', 'B'))
     tier = ctx.tier
     for ver in (1, 2, 3):
         T = TR.load(ver)
@@ -245,6 +249,10 @@ def run(ctx):
 
 
 def replay(case):
+    if isinstance(case, dict) and case.get("kind") == "pipeline":
+        from .. import pipeline
+
+        return pipeline.replay(case)
     k = case["kind"]
     if k == "node":
         v, _ = judge_nodes(case["version"])
